@@ -70,15 +70,19 @@ impl GenericSocketBackend {
                 },
             };
             let send_result = match self.peers.get_async(&next_peer_id).await {
-                Some(mut peer) if peer.serial == serial => peer.send_queue.send(message).await,
+                Some(mut peer) if peer.serial == serial => {
+                    // Back in line before the write: the caller may drop this future while
+                    // the write is blocked (timeout, select!), and the peer must not fall
+                    // out of the rotation because of that.
+                    self.round_robin.push((next_peer_id.clone(), serial));
+                    peer.send_queue.send(message).await
+                }
                 _ => continue,
             };
             return match send_result {
-                Ok(()) => {
-                    self.round_robin.push((next_peer_id.clone(), serial));
-                    Ok(next_peer_id)
-                }
+                Ok(()) => Ok(next_peer_id),
                 Err(e) => {
+                    // Forgetting the peer leaves its entry in the queue stale; it is skipped.
                     self.peer_disconnected(&next_peer_id);
                     Err(e.into())
                 }
